@@ -986,6 +986,10 @@ CORPUS_VERD = [
     # the cycle f1 -> f2 -> f3 -> f1 is entered by main through f2 (not its head) with an unconstrained argument and
     # later through f1, which calls f2 with a constant (fixed defect c02inter-2: the first analysis of f2 was never checked)
     "inter 4 6 nasserts=1 | F 0 8 7 I 0 O 0 | F 1 4 3 I 1 1 O 1 3 | F 2 4 3 I 2 1 3 O 0 | F 3 4 3 I 1 1 O 1 5 | B 0 3 call 2 0 2 0 2 | B 0 5 call 1 1 3 1 2 | E 0 0 1 1 2 2 3 2 4 3 2 4 5 4 6 5 7 6 7 | B 1 2 assign 5 E 0 -1 ; call 2 0 2 2 5 | E 1 0 1 0 2 1 3 2 3 | B 2 1 assert C lt E 1 1 3 -2 1 | B 2 2 call 3 1 5 1 5 | E 2 0 1 0 2 1 3 2 3 | B 3 2 assume C le E 1 -1 4 -2 ; call 1 1 2 1 4 | E 3 0 1 0 2 1 3 2 3",
+    # default parameters: a block with a recursive call, an assertion and another call.  The checker re-executes the
+    # block with the summary of the recursive function (the analysis used top), so the context of the second call is
+    # not equal to the stored one (fixed abort, c02inter-3)
+    "inter 3 6 nasserts=1 | F 0 1 0 I 0 O 0 | F 1 4 3 I 1 0 O 1 1 | F 2 1 0 I 1 4 O 1 5 | B 0 0 call 1 1 1 1 0 | B 1 1 assign 1 E 0 0 | B 1 2 call 1 1 2 1 0 ; assert C le E 1 1 2 -5 1 ; call 2 1 3 1 2 ; assign 1 E 1 1 3 0 | E 1 0 1 0 2 1 3 2 3 | B 2 0 assign 5 E 0 7",
     # recursion: the assertion holds for the outer call and fails in the recursive ones
     "inter 2 4 nasserts=1 | F 0 1 0 I 0 O 0 | F 1 4 3 I 1 0 O 1 1 | B 0 0 assign 2 E 0 3 ; call 1 1 3 1 2 | B 1 0 assert C le E 1 -1 0 3 1 | B 1 1 assume C le E 1 1 0 0 ; assign 1 E 0 0 | B 1 2 assume C le E 1 -1 0 1 ; arith sub 2 0 k 1 ; call 1 1 1 1 2 ; arith add 1 1 k 1 | E 1 0 1 0 2 1 3 2 3",
 ]
